@@ -46,9 +46,9 @@ Section HM6.
   Proof.
     intros ops m1 m2 al R1 R2.
     destruct (hm_run_refines K V kdflt vdflt keqb h1 keqb_sym keqb_trans h1_coh ops m1 al R1)
-      as [->|(m1' & rs1 & al1 & rs1' & E1 & A1 & (I1 & P1) & F1)]; [left; reflexivity|].
+      as [(-> & _)|(m1' & rs1 & al1 & rs1' & E1 & A1 & (I1 & P1) & F1)]; [left; reflexivity|].
     destruct (hm_run_refines K V kdflt vdflt keqb h2 keqb_sym keqb_trans h2_coh ops m2 al R2)
-      as [->|(m2' & rs2 & al2 & rs2' & E2 & A2 & (I2 & P2) & F2)]; [right; left; reflexivity|].
+      as [(-> & _)|(m2' & rs2 & al2 & rs2' & E2 & A2 & (I2 & P2) & F2)]; [right; left; reflexivity|].
     right; right. rewrite A1 in A2. inversion A2; subst al2 rs2'.
     exists m1', rs1, m2', rs2. split; [assumption|]. split; [assumption|]. split; [eapply rets_join; eauto|].
     assert (Permutation (hm_abs K V m1') (hm_abs K V m2')) as PP by (eapply Permutation_trans; [exact P1|apply Permutation_sym; exact P2]).
